@@ -6,6 +6,7 @@ import (
 	"log/slog"
 	"strings"
 	"sync"
+	"sync/atomic"
 
 	"reduction.dev/reduction/dkv/bg"
 	"reduction.dev/reduction/dkv/kv"
@@ -34,6 +35,7 @@ type DB struct {
 	mu            *sync.RWMutex
 	logger        *slog.Logger
 	dataOwnership kv.DataOwnership
+	closed        *atomic.Bool // set by Close
 }
 
 type DBOptions struct {
@@ -100,6 +102,7 @@ func New(options DBOptions) *DB {
 	}
 
 	verifTuneCompactor(compactor)
+	closed := &atomic.Bool{}
 
 	db := &DB{
 		mtables: memtable.NewList(&memtable.MemTableOptions{
@@ -115,7 +118,8 @@ func New(options DBOptions) *DB {
 		tasks:         bg.NewAsyncGroup(),
 		checkpoints:   recovery.NewCheckpointList(),
 		logger:        options.Logger,
-		dataOwnership: options.DataOwnership,
+		closed:        closed,
+		dataOwnership: closableOwnership{options.DataOwnership, closed},
 	}
 
 	return db
@@ -267,7 +271,28 @@ func (db *DB) Close() error {
 	if db == nil {
 		return nil
 	}
-	return db.tasks.Wait()
+	err := db.tasks.Wait()
+
+	// The in-memory tables of a closed database become garbage, but their files
+	// may be referenced by a database restored from one of its checkpoints (a
+	// redeployed operator reopens the same directory): stop deleting them.
+	db.tableWriter.Disown()
+	db.closed.Store(true)
+	return err
+}
+
+// closableOwnership stops claiming exclusive ownership of tables (and thereby
+// stops table files from being deleted) once its database is closed.
+type closableOwnership struct {
+	kv.DataOwnership
+	closed *atomic.Bool
+}
+
+func (o closableOwnership) ExclusivelyOwnsTable(uri string, startKey, endKey []byte) (bool, error) {
+	if o.closed.Load() {
+		return false, nil
+	}
+	return o.DataOwnership.ExclusivelyOwnsTable(uri, startKey, endKey)
 }
 
 func (db *DB) Diagnostics() string {
